@@ -11,7 +11,8 @@ EXPLANATION = (
     'pickle or deepcopy; a committed positive fixture proves the detector fires); __getstate__/__setstate__ pairs agree on their layout; '
     'PythonEvaluator.__getstate__ works on a copy of __dict__ and writes nothing on self; every field it empties is read only through a '
     'miss-tolerant get-then-setdefault(compile) path; no lambda, generator, iterator, lock, thread or file object is assigned to a field '
-    'of a class reachable from Interpreter. Decides that no state is lost or mis-keyed by serialisation; not equality of future runs.')
+    'of a class reachable from Interpreter; no snapshot hook (__getstate__, __reduce__, copy hooks) of any class changes a value the live object still refers to, '
+    'a shallow copy of __dict__ sharing its values. Decides that no state is lost or mis-keyed by serialisation; not equality of future runs.')
 
 REACHABLE_CLASSES = ['Interpreter', 'PythonEvaluator', 'Evaluator', 'DummyEvaluator', 'FrozenContext', 'Statechart', 'Transition', 'StateMixin', 'ContractMixin',
                      'ActionStateMixin', 'HistoryStateMixin', 'CompoundState', 'BasicState', 'OrthogonalState', 'FinalState', 'ShallowHistoryState', 'DeepHistoryState',
@@ -145,8 +146,14 @@ def check(run):
                         if isinstance(t, ast.Attribute) and isinstance(t.value, ast.Name) and t.value.id == 'self':
                             n += 1
                             bad = None
+                            consumed = set()      # closures / generators handed to a builtin that uses them up at once are not what gets stored
                             for x in ast.walk(node.value):
-                                if isinstance(x, (ast.Lambda, ast.GeneratorExp)):
+                                if isinstance(x, ast.Call) and (dotted(x.func) or '') in ('sorted', 'min', 'max', 'sum', 'any', 'all', 'list', 'tuple', 'set', 'frozenset', 'dict', 'len') \
+                                        or (isinstance(x, ast.Call) and isinstance(x.func, ast.Attribute) and x.func.attr == 'join'):
+                                    for a_ in list(x.args) + [k_.value for k_ in x.keywords]:
+                                        consumed |= {id(y) for y in ast.walk(a_)}
+                            for x in ast.walk(node.value):
+                                if isinstance(x, (ast.Lambda, ast.GeneratorExp)) and id(x) not in consumed:
                                     bad = type(x).__name__
                                 if isinstance(x, ast.Call):
                                     d = dotted(x.func) or ''
@@ -179,12 +186,13 @@ def check(run):
     run.floor(nargs, 10, r, 'arguments of storing calls in reachable classes')
 
 
-def rules_hooks(run):
-    r = run.rule('C18.5', 'copy / pickle hooks of reachable classes: __deepcopy__/__copy__ never hand back the object itself; __setstate__ restores fields from the pickled '
-                          'state only; __getstate__ drops nothing but lazily rebuilt caches')
+def rules_hooks(run, rid='C18.5', classes=None, why=''):
+    """classes: restrict to these classes (the rule is shared with properties that rest on a copy being a faithful one); floors apply to the full run only."""
+    r = run.rule(rid, 'copy / pickle hooks of %s: __deepcopy__/__copy__ never hand back the object itself and deep-copy what the object refers to; __setstate__ restores '
+                      'fields from the pickled state only; __getstate__ drops nothing but lazily rebuilt caches%s' % ('reachable classes' if classes is None else ', '.join(classes), why))
     prog = run.prog
     n = 0
-    for cname in REACHABLE_CLASSES:
+    for cname in (REACHABLE_CLASSES if classes is None else classes):
         if not prog.has_cls(cname):
             continue
         ci = prog.cls(cname)
@@ -203,6 +211,40 @@ def rules_hooks(run):
                     # a deep copy copies what the object refers to: the hook hands its fields to deepcopy(.., memo) (directly or as __dict__)
                     dc = [c_ for c_ in q.calls(M) if (dotted(c_.func) or '').split('.')[-1] == 'deepcopy']
                     fed = any(any(isinstance(x, ast.Name) and x.id == ps[0] for a_ in list(c_.args[:1]) for x in ast.walk(a_)) for c_ in dc)
+                    # .. and within the hook every nested deepcopy goes on with the memo it was given: without it an object referred to from two places
+                    # (an event parameter that is also a context variable) is copied twice, and the copy no longer has the sharing of the original
+                    memo_p = ps[1] if len(ps) > 1 else None
+                    for c_ in dc:
+                        passed = (len(c_.args) >= 2 and q.unparse(c_.args[1]) == memo_p) or any(k_.arg == 'memo' and q.unparse(k_.value) == memo_p for k_ in c_.keywords)
+                        run.check(passed, r, m.short, 'nested deepcopy is handed the memo: ' + q.unparse(c_)[:40], 'deepcopy is restarted without the memo: objects shared between '
+                                  'this object and the rest of the copied structure are duplicated instead of staying shared', c_)
+                    if not (dc and fed):
+                        # a hook that builds the duplicate field by field: each field copied at least as deep as its declared type is nested
+                        from .common import deepcopy_hook_gaps
+                        shallow = deepcopy_hook_gaps(prog, ci, m)
+                        if shallow is not None:
+                            for f_, need_, made_ in shallow:
+                                run.fail(r, m.short, 'field %s copied %s, needs %s' % (f_, 'by reference' if made_ == 0 else '%d level(s) deep' % made_,
+                                                                                      'a deep copy' if need_ >= 99 else '%d level(s)' % need_),
+                                         'the copy shares (part of) %s with the original: changing one changes the other' % f_, M)
+                            if not shallow:
+                                run.ok(r, m.short, 'every field copied as deep as its declared type is nested', M)
+                            continue
+                    if not (dc and fed) and ci.module.name == 'sismic.model.elements':
+                        # the elements of the model hold strings, numbers and lists of strings only (names, code, priorities, contract conditions): a hook that
+                        # hands every field over, lists through a one-level copy, shares nothing mutable with the original
+                        from .common import copy_hook_gaps
+                        gaps = [g_ for m_, g_ in copy_hook_gaps(prog, ci) if m_ is m]
+                        lists = {st.targets[0].attr for k_ in prog.mro(ci) if '__init__' in k_.methods for st in q.walk(k_.methods['__init__'].node, False)
+                                 if isinstance(st, ast.Assign) and isinstance(st.targets[0], ast.Attribute) and isinstance(st.value, (ast.List, ast.Dict, ast.Set, ast.ListComp))}
+                        raw = [x for x in q.walk(M) if isinstance(x, ast.Attribute) and isinstance(x.value, ast.Name) and x.value.id == ps[0] and x.attr in lists and
+                               isinstance(x.ctx, ast.Load) and not (isinstance(getattr(x, '_parent', None), ast.Call) and isinstance(x._parent.func, ast.Name) and
+                                                                    x._parent.func.id in ('list', 'tuple', 'sorted', 'deepcopy')) and
+                               not (isinstance(getattr(x, '_parent', None), ast.Subscript) and isinstance(x._parent.slice, ast.Slice)) and
+                               not (isinstance(getattr(x, '_parent', None), ast.Attribute) and x._parent.attr == 'copy')]
+                        if gaps == [[]] and not raw:
+                            run.ok(r, m.short, 'flat element: every field handed over, lists copied one level', M)
+                            continue
                     run.check(bool(dc) and fed, r, m.short, 'the values held by the object are deep-copied', 'the deep-copy hook does not deep-copy the fields of the object: '
                               'mutable values (event parameters, lists) stay shared between the copied interpreter and the original, so one changes what the other sees', M)
             elif hook == '__setstate__':
@@ -230,6 +272,19 @@ def rules_hooks(run):
                 rets = [x for x in q.walk(M, False) if isinstance(x, ast.Return)]
                 slots = [x for x in ci.node.body if isinstance(x, ast.Assign) and q.unparse(x.targets[0]) == '__slots__']
                 fields = sorted(q.const_str(e) for e in slots[0].value.elts) if slots else None
+                generic = False
+                for lp_ in q.walk(M, False):
+                    # every slot of the class (and of its bases) is enumerated and read: for name in copyreg._slotnames(type(self)) / self.__slots__
+                    if isinstance(lp_, ast.For) and isinstance(lp_.target, ast.Name) and ('_slotnames(' in q.unparse(lp_.iter) or '__slots__' in q.unparse(lp_.iter)):
+                        gets = [c_ for c_ in q.calls(lp_) if isinstance(c_.func, ast.Name) and c_.func.id == 'getattr' and len(c_.args) >= 2 and
+                                q.unparse(c_.args[0]) == ps[0] and q.unparse(c_.args[1]) == lp_.target.id]
+                        stored = [st_ for st_ in q.walk(lp_, False) if isinstance(st_, ast.Assign) and isinstance(st_.targets[0], ast.Subscript) and
+                                  q.unparse(st_.targets[0].slice) == lp_.target.id and any(q.in_node(g_, st_.value) for g_ in gets)]
+                        if stored and not any(guards(st_, stop=lp_) for st_ in stored):
+                            generic = True
+                if generic:
+                    run.ok(r, m.short, 'every slot is enumerated and stored in the pickled state', M)
+                    continue
                 if fields is not None and len(rets) == 1:
                     txt = q.unparse(rets[0].value)
                     missing = [f for f in fields if (ps[0] + '.' + f) not in txt and (ps[0] + '.' + f.lstrip('_')) not in txt and f not in txt]
@@ -239,4 +294,59 @@ def rules_hooks(run):
                     run.check(not over, r, m.short, 'nothing is dropped from the pickled state', 'fields are overridden in the pickled state: %s' % [q.unparse(x.targets[0]) for x in over], M)
             else:
                 run.fail(r, m.short, 'custom %s' % hook, 'a reduction hook not covered by the confirmed table', M)
+    if classes is not None:
+        run.ok(r, 'hooks', '%d copy / pickle hook(s) on %s' % (n, ', '.join(classes)), None)
+        return
     run.floor(n, 5, r, 'copy/pickle hooks')
+    # taking the snapshot does not disturb the original: a __getstate__ / __reduce__ / copy hook of any class (new ones included) changes nothing that the live
+    # object still refers to - neither a field of self, nor a value reached through a shallow copy of its __dict__
+    MUT = ('append', 'extend', 'insert', 'remove', 'pop', 'popitem', 'clear', 'update', 'setdefault', 'sort', 'reverse', 'add', 'discard', 'popleft', 'appendleft')
+    nh = 0
+    for ci in prog.classes.values():
+        if not ci.module.name.startswith('sismic.'):
+            continue
+        for hook in ('__getstate__', '__reduce__', '__reduce_ex__', '__deepcopy__', '__copy__', '__getnewargs__'):
+            m = ci.methods.get(hook)
+            if m is None:
+                continue
+            nh += 1
+            M = m.node
+            me = q.param_names(M)[0]
+            shallow = {st.targets[0].id for st in q.walk(M, False) if isinstance(st, ast.Assign) and isinstance(st.targets[0], ast.Name) and
+                       q.unparse(strip_cast(st.value)) in ('%s.__dict__.copy()' % me, 'dict(%s.__dict__)' % me, 'copy.copy(%s.__dict__)' % me, 'copy(%s.__dict__)' % me,
+                                                           'vars(%s).copy()' % me, 'dict(vars(%s))' % me, '{**%s.__dict__}' % me)}
+            live = {st.targets[0].id for st in q.walk(M, False) if isinstance(st, ast.Assign) and isinstance(st.targets[0], ast.Name) and
+                    q.unparse(strip_cast(st.value)) in ('%s.__dict__' % me, 'vars(%s)' % me)}
+
+            def shared(e):
+                """e denotes an object the live instance still refers to."""
+                e = strip_cast(e)
+                if isinstance(e, ast.Attribute) and isinstance(e.value, ast.Name) and e.value.id == me:
+                    return True
+                if isinstance(e, ast.Subscript) and isinstance(e.value, ast.Name) and e.value.id in shallow | live:
+                    return True
+                if isinstance(e, ast.Name) and e.id in live:
+                    return True
+                if isinstance(e, ast.Name):
+                    return any(shared(o) for o in q.local_origin(M, e) if not isinstance(strip_cast(o), ast.Name))
+                if isinstance(e, (ast.Subscript, ast.Attribute)):
+                    return shared(e.value)
+                return False
+            bad = []
+            for n_ in q.walk(M, False):
+                if isinstance(n_, ast.Call) and isinstance(n_.func, ast.Attribute) and n_.func.attr in MUT and shared(n_.func.value):
+                    bad.append(n_)
+                tg = n_.targets if isinstance(n_, (ast.Assign, ast.Delete)) else [n_.target] if isinstance(n_, ast.AugAssign) else []
+                for t in tg:
+                    if isinstance(t, ast.Attribute) and shared(t):
+                        bad.append(n_)
+                    elif isinstance(t, ast.Subscript) and shared(t.value) and not (isinstance(t.value, ast.Name) and t.value.id in shallow):
+                        bad.append(n_)
+                    elif isinstance(t, ast.Subscript) and isinstance(t.value, ast.Name) and t.value.id in live:
+                        bad.append(n_)
+            for b_ in bad:
+                run.fail(r, m.short, 'snapshot hook changes the live object: ' + q.unparse(b_)[:50], 'this modifies a value the original still refers to (a shallow copy of '
+                         '__dict__ shares its values): taking the snapshot disturbs the original', b_)
+            if not bad:
+                run.ok(r, m.short, 'the snapshot hook changes nothing the live object refers to', M)
+    run.floor(nh, 3, r, 'snapshot hooks examined for writes')
